@@ -6,6 +6,7 @@ import (
 	"fmt"
 	"net"
 	"os"
+	"os/exec"
 	"path/filepath"
 	"sort"
 	"strings"
@@ -26,7 +27,18 @@ func main() {
 		c := e.build(e.contents("quick")[3])
 		if err := e.dump(c, os.Args[2]); err != nil {
 			fmt.Println(err)
-			os.Exit(2)
+			os.Exit(3)
+		}
+		return
+	}
+	if len(os.Args) > 5 && os.Args[1] == "-dumpcontent" {
+		// "another process": the parent loads what this process saved (a restart is never the same process)
+		e := newEnv(os.Args[4] == "v9")
+		var idx int
+		fmt.Sscan(os.Args[3], &idx)
+		if err := e.dump(e.build(e.contents(os.Args[2])[idx]), os.Args[5]); err != nil {
+			fmt.Println(err)
+			os.Exit(3)
 		}
 		return
 	}
@@ -263,6 +275,40 @@ func (e *env) wellTyped(data []byte) bool {
 	return json.Unmarshal(data, &d) == nil
 }
 
+// entriesOfDoc reads the document leniently: every "key": {Template..., Timestamp} object found in a
+// "Templates" object of an element of "Cache" that decodes STRICTLY into the cache's entry type is
+// rendered the way entries() renders a loaded entry.
+func (e *env) entriesOfDoc(data []byte) []string {
+	var top struct{ Cache []json.RawMessage }
+	if json.Unmarshal(data, &top) != nil {
+		var loose map[string]json.RawMessage
+		if json.Unmarshal(data, &loose) != nil || json.Unmarshal(loose["Cache"], &top.Cache) != nil {
+			return nil
+		}
+	}
+	var out []string
+	for _, sh := range top.Cache {
+		var shard struct{ Templates map[string]json.RawMessage }
+		if json.Unmarshal(sh, &shard) != nil {
+			continue
+		}
+		for k, raw := range shard.Templates {
+			if e.v9 {
+				var d netflow9.Data
+				if json.Unmarshal(raw, &d) == nil {
+					out = append(out, fmt.Sprintf("%v=%+v", k, d.Template))
+				}
+			} else {
+				var d ipfix.Data
+				if json.Unmarshal(raw, &d) == nil {
+					out = append(out, fmt.Sprintf("%v=%+v", k, d.Template))
+				}
+			}
+		}
+	}
+	return out
+}
+
 func subset(a, b []string) (bool, string) {
 	set := map[string]bool{}
 	for _, x := range b {
@@ -297,8 +343,9 @@ func (e *env) checkLoad(c *mck.Ctx, sigp string, data []byte, saved [][]string, 
 	lc := e.load(p)
 	if saved == nil && !e.wellTyped(data) {
 		// an ill-typed document (a number that does not fit its field, a string where an object
-		// belongs ...) has no meaning: whatever was "saved" in it is nothing
-		saved = [][]string{{}}
+		// belongs ...): what it "saved" is at most those entries of it that are themselves well-typed
+		// (a loader may reject the whole document or keep these; it may not keep a half-read entry)
+		saved = [][]string{e.entriesOfDoc(data)}
 	}
 	if saved != nil {
 		ents, err := e.entries(lc)
@@ -384,6 +431,29 @@ func roundtrip(v9 bool, tier string) mck.Space {
 			if !strings.Contains(pa[i], "[[") && len(ct.tpls) > 0 {
 				c.Violation(proto(v9)+":roundtrip:probe-vacuous", pa[i], what())
 				return
+			}
+		}
+		// saved by ANOTHER process (as after a restart): same content, same decoding
+		if self, err := os.Executable(); err == nil {
+			po := filepath.Join(tmpDirGet(), "other.json")
+			os.Remove(po)
+			out, err := exec.Command(self, "-dumpcontent", tier, fmt.Sprint(idx), proto(v9), po).CombinedOutput()
+			if err != nil {
+				fmt.Fprintln(os.Stderr, "child process for the cross-process round trip failed:", err, string(out))
+				os.Exit(3)
+			}
+			lo := e.load(po)
+			co, erro := e.entries(lo)
+			if erro != nil || strings.Join(co, "\n") != strings.Join(a, "\n") {
+				c.Violation(proto(v9)+":roundtrip:other-process:content-differs", fmt.Sprintf("another process saved %d templates, this one loaded %d (%v)", len(a), len(co), erro), what())
+			} else {
+				po2 := e.probeAll(lo, ct)
+				for i := range pa {
+					if pa[i] != po2[i] {
+						c.Violation(proto(v9)+":roundtrip:other-process:decode-differs", fmt.Sprintf("in the saving process: %s ; in the loading process: %s", pa[i], po2[i]), what())
+						break
+					}
+				}
 			}
 		}
 		// a smaller cache saved over the file of a larger one (same path) must load back as the smaller one
